@@ -236,14 +236,28 @@ namespace pika {
             };
 
             bool const do_busy_wait = busy_wait_timeout > std::chrono::duration<double>(0.0);
+#if defined(PIKA_VERIF)
+            // wait entered; a = 1: with a busy wait first
+            PIKA_VERIF_POINT(906, this, do_busy_wait ? 1 : 0, old_phase);
+#endif
             if (do_busy_wait &&
                 pika::util::detail::yield_while_timeout(
                     poll, busy_wait_timeout, "barrier::wait", false))
             {
+#if defined(PIKA_VERIF)
+                PIKA_VERIF_POINT(908, this, 1, old_phase);    // returns from the busy wait
+#endif
                 return;
             }
 
+#if defined(PIKA_VERIF)
+            // blocking wait entered; a = 1: after a busy wait that timed out
+            PIKA_VERIF_POINT(907, this, do_busy_wait ? 1 : 0, old_phase);
+#endif
             pika::util::yield_while(poll, "barrier::wait", true);
+#if defined(PIKA_VERIF)
+            PIKA_VERIF_POINT(908, this, 0, old_phase);    // returns from the blocking wait
+#endif
         }
 
         // Effects:        Equivalent to: wait(arrive()).
